@@ -747,8 +747,30 @@ class HostileWorld(MediaBase):
                            "%s: %r" % (pkt.hex()[:120], exc))
 
     # -- oracle ----------------------------------------------------------------------------------------
+    def openssl_gave_up(self):
+        """Diagnosis of the known finding F26: after a damaged copy of a DTLS record (raw class) OpenSSL reports a
+        fatal record-layer failure and both SSL objects are dead while the transports still say 'connected'."""
+        if not (self.probes.get("inj_raw-bitflipped-ciphertext") or self.probes.get("inj_raw-truncated-ciphertext")
+                or self.probes.get("inj_raw-dtls-like")):
+            return None
+        out = []
+        for n in "PV":
+            ssl = self.pair.dtls[n]._ssl
+            try:
+                if ssl is not None and (ssl.get_shutdown() or ssl.get_state_string() == b"error"):
+                    out.append("%s: shutdown=%d state=%r" % (n, ssl.get_shutdown(), ssl.get_state_string()))
+            except Exception:  # noqa
+                pass
+        return "; ".join(out) or None
+
     def check_alive(self, when):
         if self.dead:
+            return
+        gave_up = self.openssl_gave_up()
+        if gave_up:
+            self.dead = "openssl"
+            self.violation("C05", "dtls-association-dead-after-altered-dtls-record",
+                           "%s: after a damaged copy of a DTLS record arrived OpenSSL abandoned the association (%s)" % (when, gave_up))
             return
         v = self.pair.dtls["V"]
         if v.state != "connected":
